@@ -1,4 +1,6 @@
 import IwModel.Lemmas.FsmLife
+import IwModel.Lemmas.FsmScanLemmas
+import IwModel.Lemmas.FsmLoadBytes
 /-! # C11 — allocator bookkeeping is conserved, coalesced and survives reopen
 
 Property theorems only; the work is in `IwModel/Lemmas/Fsm*.lean`.  The model (`IwModel/Model/Fsm.lean`) is the
@@ -169,5 +171,43 @@ example : Inv (openNew 6 64 0 0 false).1 := inv_open (by decide) (by decide) (by
 example (h : Heur) : Inv ([Op.alloc 100 0 (Flags.ofNat 1), Op.sync, Op.reopen false, Op.clear true].foldl (apply h)
     (openNew 6 64 0 0 false).1) :=
   inv_reachable h _ (inv_open (by decide) (by decide) (by decide) (by decide)) ⟨trivial, trivial, trivial, trivial, trivial⟩
+
+/-! ### word-wise scans and byte-wise loader (all alignments against the 64-bit words of the bitmap at once) -/
+
+/-- **bitscan_next_spec.** `_fsm_find_next_set_bit` (first partial word, whole-word loop, last partial word) returns
+    exactly what the naive scan of the model returns, for every start, limit and word content. -/
+theorem bitscan_next_spec (w : List FsmScan.Word) (b : Bits) (off max : Nat)
+    (h : ∀ i, i < max → bit b i = FsmScan.wbit w i) : FsmScan.findNext w off max = nextSet b off max :=
+  FsmScan.bitscan_next_spec w b off max h
+
+/-- **bitscan_prev_spec.** Likewise `_fsm_find_prev_set_bit` (through `iwbits_reverse_64` and
+    `iwbits_find_first_sbit64`) and the naive backward scan. -/
+theorem bitscan_prev_spec (w : List FsmScan.Word) (b : Bits) (off min : Nat)
+    (h : ∀ i, i < off → bit b i = FsmScan.wbit w i) : FsmScan.findPrev w off min = prevSet b min off :=
+  FsmScan.bitscan_prev_spec w b off min h
+
+/-- `iwbits_find_first_sbit64` returns the index of the lowest set bit of a non-zero word. -/
+theorem ffs_spec (x : FsmScan.Word) (hx : x ≠ 0) :
+    FsmScan.ffs x < 64 ∧ x.getLsbD (FsmScan.ffs x) = true ∧ ∀ j, j < FsmScan.ffs x → x.getLsbD j = false :=
+  FsmScan.ffs_spec x hx
+
+/-- `iwbits_reverse_64` reverses the 64 bits. -/
+theorem rev64_spec (x : FsmScan.Word) (j : Nat) (hj : j < 64) :
+    (FsmScan.rev64 x).getLsbD j = x.getLsbD (63 - j) :=
+  FsmScan.rev64_spec x j hj
+
+/-- **load_spec.** The byte-wise scan of `_fsm_load_fsm_lw` (0x00 and 0xff bytes in one step, other bytes bit by bit)
+    finds the same extents in the same order as the bit-by-bit scan `runs` — which lists exactly the maximal zero runs
+    (`index_eq_runs`, `mem_runs`). -/
+theorem load_spec (bytes : List Nat) : FsmScan.load bytes = runs (FsmScan.bitsOfBytes bytes).toArray :=
+  FsmScan.load_spec bytes
+
+theorem load_spec_runs (bytes : List Nat) (o l : Nat) :
+    (o, l) ∈ FsmScan.load bytes ↔ IsRun (FsmScan.bitsOfBytes bytes).toArray o l := by
+  rw [load_spec, mem_runs]
+
+/-- non-vacuity of the scan theorems: a two-word map -/
+example : FsmScan.findNext [0#64, 0x10#64] 3 128 = some 68 ∧ FsmScan.findPrev [0x8000000000000001#64, 0#64] 100 0 = some 63 := by
+  decide
 
 end IwModel.C11
